@@ -10,17 +10,37 @@ fn format_stub(_args: std::fmt::Arguments<'_>) -> String {
     String::new()
 }
 
+/// every token of the (<= 4 token) buffer is one of `alphabet`
+fn assume_alphabet(l: &Lexer, alphabet: &[char]) {
+    let buf = lexer_buf(l);
+    let mut i = 0;
+    while i < buf.len() {
+        let k = buf[i].kind;
+        let mut ok = false;
+        let mut j = 0;
+        while j < alphabet.len() {
+            if alphabet[j] == k {
+                ok = true;
+            }
+            j += 1;
+        }
+        kani::assume(ok);
+        i += 1;
+    }
+}
+
 fn frame_ok(p: &SelectorParser, before: &Vec<Token>, c0: usize) -> bool {
     lexer_buf(&p.toks) == before && p.toks.cursor() <= before.len() && p.toks.cursor() >= c0
 }
 
-//@ ob: id=C01/K/selector_a_n_plus_b kind=K-bounded fns=SelectorParser::parse_a_n_plus_b bound="buffer <= 4 tokens; unwind 8; format! stubbed"
+//@ ob: id=C01/K/selector_a_n_plus_b kind=K-bounded fns=SelectorParser::parse_a_n_plus_b bound="buffer <= 4 tokens over the alphabet {e,o,d,n,+,-,1,space,x} (no escapes); unwind 10; format! stubbed"
 //@ desc: parse_a_n_plus_b (the An+B microsyntax of :nth-child) returns, keeps the cursor inside the buffer, never moves it backwards and never touches the buffer (the contract the Verus unit selector_parser assumes)
 #[kani::proof]
-#[kani::unwind(8)]
+#[kani::unwind(10)]
 #[kani::stub(alloc::fmt::format, format_stub)]
 fn c01_selector_a_n_plus_b() {
     let toks = any_wf_lexer();
+    assume_alphabet(&toks, &['e', 'o', 'd', 'n', '+', '-', '1', ' ', 'x']);
     let span = lexer_entire_span(&toks);
     let mut p = SelectorParser::new(toks, kani::any(), kani::any(), span);
     let before = lexer_buf(&p.toks).clone();
@@ -32,13 +52,14 @@ fn c01_selector_a_n_plus_b() {
     core::mem::forget(r);
 }
 
-//@ ob: id=C01/K/selector_eat_whitespace kind=K-bounded fns=SelectorParser::eat_whitespace bound="buffer <= 4 tokens; unwind 8; format! stubbed"
+//@ ob: id=C01/K/selector_eat_whitespace kind=K-bounded fns=SelectorParser::eat_whitespace bound="buffer <= 4 tokens over the alphabet {space,newline,/,*,a}; unwind 10; format! stubbed"
 //@ desc: eat_whitespace returns, keeps the cursor inside the buffer, never moves it backwards and never touches the buffer (the contract the Verus unit selector_parser assumes)
 #[kani::proof]
-#[kani::unwind(8)]
+#[kani::unwind(10)]
 #[kani::stub(alloc::fmt::format, format_stub)]
 fn c01_selector_eat_whitespace() {
     let toks = any_wf_lexer();
+    assume_alphabet(&toks, &[' ', '\n', '/', '*', 'a']);
     let span = lexer_entire_span(&toks);
     let mut p = SelectorParser::new(toks, kani::any(), kani::any(), span);
     let before = lexer_buf(&p.toks).clone();
